@@ -26,7 +26,7 @@ PROPS = {
         rule="case = (stored value, received value) whose formatted texts differ, API in all five, second process in a non-updating mode "
              "(default / Update(false) / CI / UPDATE_SNAPS=clean / other strings), colours on or off. Pairs come from 1-2 edits of a hostile text "
              "(byte flip/insert/delete, edge newline, whitespace, invalid UTF-8 swap, U+FFFD vs invalid byte, line dup/delete/replace/move), independent texts, "
-             "JSON value mutations and YAML text edits. Round 6: UPDATE_SNAPS reaches the library through the environment (spellings false/0/FALSE/f/1/TRUE/t/yes); the stored file loses its final newline or gets CRLF line ends between the processes. Round 7: pairs that differ only in terminal control sequences, only in an invisible character / blank vs NBSP, by a label glued in front of the first line, or by everything from a `---…` line on being cut. non-trivial = pair differs only in edge newlines, only in whitespace, only in invalid UTF-8, in exactly one byte, "
+             "JSON value mutations and YAML text edits. Round 6: UPDATE_SNAPS reaches the library through the environment (spellings false/0/FALSE/f/1/TRUE/t/yes); the stored file loses its final newline or gets CRLF line ends between the processes. Round 7: pairs that differ only in terminal control sequences, only in an invisible character / blank vs NBSP, by a label glued in front of the first line, or by everything from a `---…` line on being cut. Round 8: a test in which 11-40 calls differ (all five APIs, mixed), one or two executions: every call fails. non-trivial = pair differs only in edge newlines, only in whitespace, only in invalid UTF-8, in exactly one byte, "
              "takes the inline (coloured single-line) path, or is a JSON value change; distinct = distinct canonical JSON. "
              "huge_line_counts stage: enumerated descriptor cases - texts of N distinct lines with N on 0x7FFF/0x8001, 0xD7FF-0xE001, 0xFFFD-0x10001, received = last line(s) changed / two lines swapped / first line changed",
         assumptions=ASSUME_WB + ["known finding K1 (`---` vs `/-/-/-/` lines) is excluded by construction from the main campaign and probed by its own generator"],
@@ -42,7 +42,7 @@ PROPS = {
         rule="case = history: 1-4 tests (prefix-related names, fixed call programs of 1-13 slots over 1-2 files) x 1-3 processes (mode: default / UPDATE_SNAPS=true / other / CI) "
              "x 1-4 executions per process (re-executions, partial executions) whose calls are interleaved like parallel tests, with failing calls (invalid JSON/YAML, failing matcher), "
              "per-call Update options, pre-existing foreign entries and optionally a conversion of all files to CRLF line ends between two processes, single calls through a differently spelled directory; after EVERY call the observed outcome is compared with a slot model and both files are re-parsed with the reference parser. "
-             "Round 6: tests of other runners (Benchmark…, Fuzz…/seed#0, Example…, custom names) whose entries hold lines that equal ids of other slots. non-trivial = >= 2 tests and at least one of: prefix-related names, re-execution, interleaving, calls after a failing call, >= 10 calls, header-like body, per-call update option; "
+             "Round 6: tests of other runners (Benchmark…, Fuzz…/seed#0, Example…, custom names) whose entries hold lines that equal ids of other slots. Round 8: conflict-marker lines as content; the fake T answers Failed()/Skipped() like a *testing.T. non-trivial = >= 2 tests and at least one of: prefix-related names, re-execution, interleaving, calls after a failing call, >= 10 calls, header-like body, per-call update option; "
              "distinct = distinct canonical JSON of the history. concurrent_slots stage: the C06 scenario/schedule generator on the controlled scheduler (2-4 tests sharing a file, 0-3 preemptions): "
              "every call addresses its own slot and no slot is lost or reverted by another test's concurrent write",
         assumptions=ASSUME_WB + ["the history stage interleaves calls one at a time; preemption inside a call is explored by the concurrent_slots stage (statement granularity) and exhaustively by C06"],
@@ -55,7 +55,7 @@ PROPS = {
              "(UPDATE_SNAPS=true, or Update(true) under any UPDATE_SNAPS) in which a generated subset of calls changes value (shorter, longer, empty, terminator/header-like, multi-line; same length; multi-KiB), "
              "optionally after the recorded file was converted to CRLF line ends, optionally with other JSON options (indent/width/key sorting) in the update run than in the recording run (expected text computed with tidwall/pretty), "
              "then a read-only process. Checked per call: outcome, no write at all for unchanged values (mtime), only the addressed file written, entry list re-parsed with the reference parser "
-             "(no residue, others byte-identical and in place), standalone files equal the new formatted value. Round 6: calls that the update run rejects before the comparison (invalid JSON/YAML text, matcher on a missing path) between calls that rewrite their entries; tests of other runners. non-trivial = a changed entry that is shorter, or >= 2 changed entries, "
+             "(no residue, others byte-identical and in place), standalone files equal the new formatted value. Round 6: calls that the update run rejects before the comparison (invalid JSON/YAML text, matcher on a missing path) between calls that rewrite their entries; tests of other runners. Round 8: `<file>.tmp` (longer than the file) lies next to the snapshot file; conflict-marker lines as content. non-trivial = a changed entry that is shorter, or >= 2 changed entries, "
              "or a changed non-last entry, or a standalone update; distinct = distinct canonical JSON",
         assumptions=ASSUME_WB + ["'no write' is observed through mtimes: every file is aged to a fixed past instant before each call"],
         stages=[dict(name="update", run="^TestC04_", quick=600, thorough=5000, shards_quick=4, shards_thorough=16)],
@@ -65,7 +65,7 @@ PROPS = {
              "x obsolete items{present,absent} = 1440 cells, enumerated completely; per cell the values and the 'other' string come from seeded generators. Each cell = a preparation run and one real process of a "
              "data-driven test program (real environment variables, real TestMain + snaps.Clean); the observed call outcome and the directory delta are compared with the statement's table written as a pure function. "
              "The pre-existing snapshot is presented as the library wrote it, or (every 4th multi-entry cell) converted to CRLF line ends, or (every 3rd standalone cell with an existing file) as a symbolic link to the real file, or (cells without sort/obsolete items) with a second entry of an id that occurs already; CI cells are recognised as CI through one of eight variables (CI, BUILD_NUMBER, RUN_ID, CI_NAME, CONTINUOUS_INTEGRATION, BUILD_ID, GITHUB_ACTIONS); every fifth cell runs with a foreign working directory. "
-             "Round 6: sparse-state table (720 cells): snapshot directory absent, present but EMPTY, or an addressed file that only holds entries of tests that no longer exist, x CI x Update option x UPDATE_SNAPS x sort x API. Round 7: values `---`, `---\\n`, empty (stored and received) in the table. non-trivial = cells in which a create, rewrite, delete or sort is requested by the situation; every cell is distinct",
+             "Round 6: sparse-state table (720 cells): snapshot directory absent, present but EMPTY, or an addressed file that only holds entries of tests that no longer exist, x CI x Update option x UPDATE_SNAPS x sort x API. Round 7: values `---`, `---\\n`, empty (stored and received) in the table. Round 8: cells run with -test.shuffle=on / a seed; cells in which the test has already failed (a missing snapshot through Update(false)) before the call of the cell. non-trivial = cells in which a create, rewrite, delete or sort is requested by the situation; every cell is distinct",
         assumptions=["black-box: scenario program compiled against /repo with `replace`, executed with an explicit minimal environment", "UPDATE_SNAPS and CI are read by the real init code of the process"],
         stages=[dict(name="table", engine="bb", run="^TestC05_", quick=1, thorough=1, shards_quick=8, shards_thorough=16)],
     ),
@@ -92,7 +92,7 @@ PROPS = {
              "Clean in every mode x sort; further dimensions: an addressed file converted to CRLF line ends, a file with an unterminated last entry, main directory names with glob metacharacters next to sibling directories, "
              "-test.cpu lists with empty elements, 36-60 addressed files while RLIMIT_NOFILE leaves 24 free descriptors during Clean, very long lines. real_runner stage: real -test.count/-test.run/-test.cpu. "
              "Oracle: every slot addressed in this process keeps its entry/standalone file byte-identical (line ends aside), is never listed, and a read-only replay passes. "
-             "Round 6: calls rejected before the comparison inside the run (still the k-th call), a Config with Update(false) on a never-recorded snapshot whose directory never comes into existence (visited all the same). non-trivial = -count > 1, or a test with >= 10 calls, or standalone and multi-entry mixed, or stale neighbours present; distinct = distinct canonical JSON",
+             "Round 6: calls rejected before the comparison inside the run (still the k-th call), a Config with Update(false) on a never-recorded snapshot whose directory never comes into existence (visited all the same). Round 8: TMPDIR on another file system during Clean; tests that end through plain t.Skip; the run's configs carry Update(true/false); every recorded slot must lie where the naming rule puts it; Filename `v1.snapshots`, Ext `_golden`; sub test names with : ? * \" < > |. non-trivial = -count > 1, or a test with >= 10 calls, or standalone and multi-entry mixed, or stale neighbours present; distinct = distinct canonical JSON",
         assumptions=ASSUME_WB + ["Clean is the exported function driven in-process with test.run/test.count set through the flag package; -run values always select every executed test"],
         stages=[dict(name="clean_keeps", run="^TestC07_", quick=400, thorough=4000, shards_quick=4, shards_thorough=16),
                 dict(name="real_runner", engine="bb", run="^TestC07BB_", quick=30, thorough=400, shards_quick=4, shards_thorough=16)],
@@ -103,7 +103,7 @@ PROPS = {
              "multi-level patterns, anchors, patterns matching only a subtest name or a digit), Clean in report/clean mode x sort, plus stale entries of prefix siblings and children of skipped tests. "
              "The program itself reports which tests started (the real runner is the oracle). Oracle: every item recorded for a test (or part of a test) that did not run survives byte-identically and is not listed; "
              "conversely (no -run) stale entries not protected by a skip are reported/removed. Losses matching the signatures of known findings K2-K5 are exempted and counted; K2-K5 are probed by minimal programs. "
-             "Round 6: -count=2/3 with tests that call snaps.Skip* only from their k-th execution on (plus a test that skips every time), everything in one shared file: nothing listed, nothing removed. Round 7: -run groups of three and more alternatives (`^(TestAlpha|TestB|TestGamma)$`, also per level); a test file that holds test-like declarations only inside a block comment and a raw string. non-trivial = a skip or a -run filter is present; distinct = distinct canonical JSON",
+             "Round 6: -count=2/3 with tests that call snaps.Skip* only from their k-th execution on (plus a test that skips every time), everything in one shared file: nothing listed, nothing removed. Round 7: -run groups of three and more alternatives (`^(TestAlpha|TestB|TestGamma)$`, also per level); a test file that holds test-like declarations only inside a block comment and a raw string. Round 8: a snapshot directory nested in the default one whose tests all call snaps.Skip*; a file named after alpha_test.go shared by tests of every test file. non-trivial = a skip or a -run filter is present; distinct = distinct canonical JSON",
         assumptions=["black-box: scenario program compiled against /repo; snapshot directory is the program's own __snapshots__ (cleaned between cases)",
                      "known findings K2-K5 (DESIGN §7) are exempted by predicate: sole-owner files of skipped tests, whole-id regexp, non-default file names under -run, file heuristic"],
         stages=[
@@ -116,7 +116,7 @@ PROPS = {
              "stale entries (absent tests, ordinals beyond the calls), stale multi-entry and standalone files, unrelated files, sub-directories (one named sub.snap), an unaddressed directory, -count 1-3, all modes x sort, "
              "directory names with glob metacharacters + siblings, -test.cpu lists, more addressed files (36-60) than free descriptors (24) during Clean, a read-only tree during Clean (file-system uid of the thread unprivileged; scenarios in which Clean has to write are excluded). "
              "Skip* never return (as with a real testing.T). Oracle: reported set contains every stale item of the model, no addressed item and no entry of a skip-protected test; removed iff reported and deletion allowed; everything else byte- and mtime-identical. "
-             "Round 6: rejected calls and never-created visited directories as in C07. non-trivial = at least one stale entry and one stale file present; distinct = distinct canonical JSON",
+             "Round 6: rejected calls and never-created visited directories as in C07. Round 8: as C07 (foreign TMPDIR, plain t.Skip, Update options in the run, name shapes). non-trivial = at least one stale entry and one stale file present; distinct = distinct canonical JSON",
         assumptions=ASSUME_WB + ["skip-protected entries are exempt from the completeness demand (C08 judges them)"],
         stages=[dict(name="clean_reports", run="^TestC09_", quick=400, thorough=5000, shards_quick=4, shards_thorough=16)],
     ),
@@ -125,14 +125,14 @@ PROPS = {
              "random order, bodies with blank/terminator-like/header-like lines), mode (default/clean/true/CI/other) x sort on/off. A process replays every live entry through MatchSnapshot, "
              "then Clean runs. Oracles: survivors = exact multiset of (id, body); order non-decreasing under an independent natural comparator when sorting (total-order ids); relative order kept otherwise; "
              "no write when nothing to prune/sort (mtime); second Clean is a no-op; a second initial permutation sorts to identical bytes. "
-             "Round 7: files with 0-3 extra blank lines in front of entries and at the end; entries of tests that call snaps.Skip in this process (neither replayed nor stale) survive every prune and sort. non-trivial = >= 3 entries and (unsorted with sort on, or stale entry with deletion on, or special body lines); distinct = distinct canonical JSON",
+             "Round 7: files with 0-3 extra blank lines in front of entries and at the end; entries of tests that call snaps.Skip in this process (neither replayed nor stale) survive every prune and sort. Round 8: TMPDIR on another file system; file names with `.snap` inside the name, Ext without a dot (`_golden`, `-linux`, `json`), Ext `.orig`. non-trivial = >= 3 entries and (unsorted with sort on, or stale entry with deletion on, or special body lines); distinct = distinct canonical JSON",
         assumptions=ASSUME_WB + ["ids with zero-padded digit runs (natural order not total) are only checked for content preservation, not for order"],
         stages=[dict(name="clean_rewrite", run="^TestC10_", quick=500, thorough=5000, shards_quick=4, shards_thorough=16)],
     ),
     "C14": dict(
         rule="case = JSON tree (distinct keys incl. empty/unicode/escaped/dotted, numbers of all shapes as literals, escapes, depth <= 5) x presentations (insignificant whitespace incl. CR/TAB, member permutation) "
              "x input form (string/[]byte/Go value) x options (default, or Width/Indent/SortKeys) x API (MatchJSON/MatchStandaloneJSON), plus one invalid text (truncation, dropped quote/brace, trailing comma, "
-             "bad literals, non-JSON whitespace padding, trailing data) judged invalid by encoding/json. Oracles: relations (1)-(5) of DESIGN §6/C14. Round 6: typed nil containers and pointers ([]any(nil), map[string]any(nil), (*int)(nil), zero structs with nil slices/maps) inside Go values: stored like their standard encoding (null). Round 7: an invalid text (stray brace, second document, trailing text, lost colon) when the slot already holds the valid document, in default / update / CI mode: rejected, nothing written; Go values implementing error, fmt.Stringer, encoding.TextMarshaler (also as map keys), time.Time / time.Duration. non-trivial = every case (each carries an invalid input); "
+             "bad literals, non-JSON whitespace padding, trailing data) judged invalid by encoding/json. Oracles: relations (1)-(5) of DESIGN §6/C14. Round 6: typed nil containers and pointers ([]any(nil), map[string]any(nil), (*int)(nil), zero structs with nil slices/maps) inside Go values: stored like their standard encoding (null). Round 7: an invalid text (stray brace, second document, trailing text, lost colon) when the slot already holds the valid document, in default / update / CI mode: rejected, nothing written; Go values implementing error, fmt.Stringer, encoding.TextMarshaler (also as map keys), time.Time / time.Duration. Round 8: a valid document that differs from the stored one in the LAST digit of a 16+ digit number (else in one digit/letter) is reported read-only and written when updating. non-trivial = every case (each carries an invalid input); "
              "classes record depth >= 2, exotic numbers, escapes, option kinds; distinct = distinct canonical JSON. Further stages inside the case: one []byte buffer rewritten in place with same-length documents between assertions "
              "(each must store what a fresh process stores). TestC14_DeepNesting: enumerated documents nested 1..10002 levels (thorough ..65536; arrays <= 4096 quick / 10002 thorough because the pretty printer is quadratic), three input forms, "
              "oracle independent of encoding/json (stored text minus whitespace == input)",
@@ -144,7 +144,7 @@ PROPS = {
              "on existing paths chosen by walking the tree (keys needing gjson escapes, array elements, nested; the same path twice; a parent after its child and a child after its parent), input as string/[]byte/Go value, "
              "through MatchJSON / MatchStandaloneJSON / MatchYAML, SortKeys on and off; placeholders related to the replaced value (the value itself, a string spelling its JSON source, the quoted source); options chained or applied as statements; "
              "keys `$`, `a:b`, `x/y`; tables of records addressed through gjson `#` / `#(query)` and YAML `[*]` paths; YAML string placeholders that are not safe plain scalars; Custom callbacks that scrub their argument in place; the matcher VALUES are also reused after warm-up documents (a later listed path removed, the first path removed, empty container) and must store the same. Oracle: a reported error (trivial, counted in classes) or the stored document equals the model set(tree, path, placeholder) applied left to right "
-             "as an ordered tree, Custom callbacks observe the model's current value, the caller's bytes are unchanged. Round 7: YAML literal block scalars (trailing blanks included) as values, targets and neighbours. non-trivial = >= 2 matchers, path depth >= 2, key needing escape, array element, or "
+             "as an ordered tree, Custom callbacks observe the model's current value, the caller's bytes are unchanged. Round 7: YAML literal block scalars (trailing blanks included) as values, targets and neighbours. Round 8: keys `ok?`, `2026`, YAML keys `200`, `8080`; strings mentioning `interface {}`. non-trivial = >= 2 matchers, path depth >= 2, key needing escape, array element, or "
              "placeholder not longer than the value with []byte input; distinct = distinct canonical JSON",
         assumptions=ASSUME_WB + ["YAML output is parsed with goccy/go-yaml (ordered maps): the only YAML parser available offline", "a reported matcher error is a legal outcome"],
         stages=[dict(name="matchers", run="^TestC15_", quick=800, thorough=10000, shards_quick=4, shards_thorough=16),
@@ -156,7 +156,7 @@ PROPS = {
              "merged form: all masked paths in ONE Any with ErrOnMissingPath(false), interleaved with paths that do not exist and are textual prefixes / extensions of the existing ones (sibling keys sharing a prefix); keys `$`, `a:b`; "
              "matcher values reused after a warm-up document; tables masked through `#` / `#(query)` / `[*]` paths (empty arrays as masked values, records lacking the member); YAML input optionally a stream holding the document twice; changed numbers include the integer neighbour (last digit +-1, ids beyond 2^53). "
              "Oracle: stored(D) == stored(D') byte-for-byte, each replays read-only against the other's snapshot without writing, D'' reports exactly one error. "
-             "Round 6: flat records masked by ONE Type matcher listing 3-6 paths out of document order with values of 1-15 digits / 0-20 bytes (every replacement shifts the rest by another amount); enumerated documents of 10 050-33 000 rows (json, sjson, yaml) differing at row 3, middle, 10 001 or last. Round 7: JSON input in the ASCII-only spelling (every non-ASCII character of keys and strings as \\uXXXX); YAML literal block scalars whose variants differ only in blanks in front of a line break. non-trivial = at least one masked path and D' differs textually from D; the D'' class is counted separately; distinct = distinct canonical JSON",
+             "Round 6: flat records masked by ONE Type matcher listing 3-6 paths out of document order with values of 1-15 digits / 0-20 bytes (every replacement shifts the rest by another amount); enumerated documents of 10 050-33 000 rows (json, sjson, yaml) differing at row 3, middle, 10 001 or last. Round 7: JSON input in the ASCII-only spelling (every non-ASCII character of keys and strings as \\uXXXX); YAML literal block scalars whose variants differ only in blanks in front of a line break. Round 8: single-quoted YAML strings holding ` #` and `: `; unmasked strings mentioning `interface {}` next to Type placeholders. non-trivial = at least one masked path and D' differs textually from D; the D'' class is counted separately; distinct = distinct canonical JSON",
         assumptions=ASSUME_WB + ["Type[any] is excluded (the placeholder records the dynamic type by design)", "cases on which a matcher reports an error on D or D' are counted as trivial"],
         stages=[dict(name="masked", run="^TestC16_", quick=600, thorough=8000, shards_quick=4, shards_thorough=16)],
     ),
@@ -165,7 +165,7 @@ PROPS = {
              "11-14 failing matchers in one call, YAML nulls (null, ~, bare key) as wrong-type targets, matcher pairs where the second fails only because the first (satisfiable) one replaced its target (parent then child; the same Type twice), options chained or applied as statements, "
              "mode in {create allowed, update enabled with an existing different entry, Update(false), CI}, JSON / standalone JSON / YAML, 0-2 calls before and 1-3 calls after. "
              "Oracle: one failure naming match.<Name>(\"<path>\") for every failing matcher, nothing written (mtime), later calls land in slots k+1...; with only tolerated missing paths the call proceeds per mode. "
-             "Round 6: a matcher that lists a missing path first and an existing path second fails as a whole - the next, satisfiable matcher on that path sees the original value; satisfiable matchers must NOT be named. non-trivial = a failing and a satisfiable matcher together, or update-enabled mode with an existing entry, or a tolerated missing path; distinct = distinct canonical JSON",
+             "Round 6: a matcher that lists a missing path first and an existing path second fails as a whole - the next, satisfiable matcher on that path sees the original value; satisfiable matchers must NOT be named. Round 8: matchers that were relaxed (ErrOnMissingPath(false)) before their final strict setting; the slot already holds exactly the document (matchers added to a test that has its snapshot). non-trivial = a failing and a satisfiable matcher together, or update-enabled mode with an existing entry, or a tolerated missing path; distinct = distinct canonical JSON",
         assumptions=ASSUME_WB,
         stages=[dict(name="failures", run="^TestC17_", quick=600, thorough=8000, shards_quick=4, shards_thorough=16)],
     ),
@@ -174,7 +174,7 @@ PROPS = {
              "multi-document streams with ---/... (separators also with trailing blanks, tabs or a comment), %YAML directive, anchors/aliases, trailing blank lines, with/without final newline, optional leading BOM; LF only), split by the YAML library itself into valid and invalid; "
              "constructed invalid inputs (unclosed flow/quote, tab indentation, undefined alias, duplicate keys next to merge keys); Go values of string/byte-like kinds ([]uint8-kind enums, named strings, net.IP) stored as the YAML library marshals them with the fixed encoder options; Go values (nested maps with varied key order, tagged structs, multi-line strings); documents with a matcher (final newline). "
              "Oracle: stored body == escape(input) byte-for-byte, read-only replay passes without writing; Go values store identical text in two processes; invalid = one `invalid yaml` failure, nothing written, ordinal consumed. "
-             "Round 6: the document replaces another document stored under the id (update run, rewrite path). Round 7: JSON-syntax documents with duplicate keys are invalid YAML; after recording, a Clean run that prunes an obsolete neighbour rewrites the file - the document is still stored verbatim. non-trivial = document with a separator line, comment, header-looking line, terminator in a block scalar, no final newline or trailing blank lines; or a Go value; or an invalid input; distinct = distinct canonical JSON",
+             "Round 6: the document replaces another document stored under the id (update run, rewrite path). Round 7: JSON-syntax documents with duplicate keys are invalid YAML; after recording, a Clean run that prunes an obsolete neighbour rewrites the file - the document is still stored verbatim. Round 8: flow collections broken over TAB-indented lines (valid YAML); Go values in which one map / pointer is reachable along two paths. non-trivial = document with a separator line, comment, header-looking line, terminator in a block scalar, no final newline or trailing blank lines; or a Go value; or an invalid input; distinct = distinct canonical JSON",
         assumptions=ASSUME_WB + ["validity is delegated to goccy/go-yaml (only used to split the domain); the verbatim clause is judged on bytes"],
         stages=[dict(name="yaml", run="^TestC18_", quick=800, thorough=10000, shards_quick=4, shards_thorough=16)],
     ),
@@ -183,7 +183,7 @@ PROPS = {
              "MatchStandaloneJSON, interleaved MatchSnapshot, MatchStandaloneJSON calls that are rejected in every process (invalid JSON, failing matcher) and still are the k-th call) under configs with/without Filename/Ext (also containing '%'), executed 1-3 times per process. Four processes: record (exact file set and bytes), "
              "read-only replay (passes, no write), changed values without update (one error, untouched), update (file replaced wholesale, unchanged files not written); values of 64 KiB and more with a one-byte change. "
              "concurrent_standalone stage: scenarios x schedules on the controlled scheduler with standalone calls of 2-4 live tests (names from the pool incl. case variants), every schedule with <= 2 preemptions at interesting sites for two tests whose names differ in case only. real_program stage (black box): a real test program, also checked out under a path with '%' and a blank, normal and -trimpath builds: file k holds exactly value k and replays on CI. "
-             "Round 6: a sibling test (name + B/0//s/_/#01, or two 246-byte names differing in their last bytes) stores one standalone snapshot into the same directory before the test runs: its file is its own in every process. Round 7: text that is not JSON (NaN, truncated, trailing data) together with a matcher whose path a lenient reader resolves: rejected like every invalid input. non-trivial = a value with CR, a terminator-like line, an empty value, >= 2 executions, >= 10 calls, or an update to a shorter value; distinct = distinct canonical JSON",
+             "Round 6: a sibling test (name + B/0//s/_/#01, or two 246-byte names differing in their last bytes) stores one standalone snapshot into the same directory before the test runs: its file is its own in every process. Round 7: text that is not JSON (NaN, truncated, trailing data) together with a matcher whose path a lenient reader resolves: rejected like every invalid input. Round 8: configs with JSON options; the file must be byte-for-byte tidwall/pretty(options) of the text or of encoding/json's encoding of the value. non-trivial = a value with CR, a terminator-like line, an empty value, >= 2 executions, >= 10 calls, or an update to a shorter value; distinct = distinct canonical JSON",
         assumptions=ASSUME_WB + ["standalone ordinals count per resolved file pattern (README: _1.snap and _1.snap.html for different Ext)"],
         stages=[dict(name="standalone", run="^TestC19_", quick=800, thorough=10000, shards_quick=4, shards_thorough=16),
                 dict(name="concurrent_standalone", engine="sched", run="^TestC19_(ConcurrentStandalone|ExhaustiveCaseNames)$", quick=150, thorough=1500, shards_quick=4, shards_thorough=16),
@@ -193,7 +193,7 @@ PROPS = {
         rule="sequential: histories as C03 (every process executes a test at most once) with all outcome classes (passed, added, updated, failed by mismatch / invalid input / failing matcher / missing on CI / "
              "directory that cannot be created), snaps.Skip* calls, Clean at the end of every process in any mode x sort with stale entries and unaddressed files; oracle: per call exactly one outcome signal "
              "equal to the model's class, summary totals == harness tallies, obsolete lists == model's stale set == what Clean removed. concurrent: 2-8 goroutines (distinct names, one shared file) with predicted "
-             "classes, then the same summary oracle. all-entry-points scenario: clean scenarios of C07/C09 (incl. read-only tree, descriptor limit) with totals and the obsolete FILE list compared. non-trivial = >= 2 failure/skip kinds or >= 2 processes (sequential), >= 3 outcome kinds (concurrent); distinct = distinct canonical JSON",
+             "classes, then the same summary oracle. all-entry-points scenario: clean scenarios of C07/C09 (incl. read-only tree, descriptor limit) with totals and the obsolete FILE list compared. Round 6-8: the fake test value never returns from Skip*, and answers Failed() / Skipped() like a *testing.T (a test stays failed once Error was called); tests ending through plain t.Skip. non-trivial = >= 2 failure/skip kinds or >= 2 processes (sequential), >= 3 outcome kinds (concurrent); distinct = distinct canonical JSON",
         assumptions=ASSUME_WB + ["MatchSnapshot without values (documented warning) is excluded", "the summary grammar parsed is the NO_COLOR one"],
         stages=[dict(name="summary", run="^TestC20_", quick=500, thorough=5000, shards_quick=4, shards_thorough=16),
                 dict(name="real_process", engine="bb", run="^TestC20BB_", quick=30, thorough=400, shards_quick=4, shards_thorough=16),
@@ -204,7 +204,7 @@ PROPS = {
              "./x/../x, absolute}, Filename (incl. '%', dots, unicode, spaces), Ext (incl. '.snap', '.%s'), package-level functions, call shapes {direct, closure, helper in the test file, helper in a non-test file, helper in another package} "
              "with 0-100 extra frames, inside subtests / nested subtests with names containing '%', '/', spaces, rejected calls (invalid JSON/YAML) that still consume their ordinal, optionally a second test function from another test file in the same process, subtests whose function is declared in a NON-test file (suite shape); odd shards run the program from a directory with '%' and a blank in its name. "
              "Every case is executed nine times: normal / -trimpath build x cwd = package dir / foreign cwd x GOFLAGS in the environment (unset, -trimpath, unrelated, -trimpath=false, -gcflags=-trimpath=/src), and once with -test.count=2; each time the exact set of created files (and the entry ids inside multi-entry files) must equal the statement's formula computed from the known source path. "
-             "Round 6: Dir explicitly empty and `.`, an absolute Dir 240 bytes deep (whole paths beyond 259 bytes), a 72-byte sub test name. Round 7: calls made through an assertion helper that lives in a NON-test file called testing.go inside a directory ending in `testing`. every case is non-trivial (nine build/cwd/GOFLAGS/-count variants); classes record option kinds, shapes, helper depth; distinct = distinct canonical JSON",
+             "Round 6: Dir explicitly empty and `.`, an absolute Dir 240 bytes deep (whole paths beyond 259 bytes), a 72-byte sub test name. Round 8: sub test names with : ? * \" < > | (standalone names change only `/`). Round 7: calls made through an assertion helper that lives in a NON-test file called testing.go inside a directory ending in `testing`. every case is non-trivial (nine build/cwd/GOFLAGS/-count variants); classes record option kinds, shapes, helper depth; distinct = distinct canonical JSON",
         assumptions=["the file name is asserted only when the first *_test.go frame is the file that declares the test function (the scenario program is built that way)", "-trimpath is asserted for cwd = package directory only (documented limitation otherwise)"],
         stages=[dict(name="location", engine="bb", run="^TestC11_", quick=60, thorough=1500, shards_quick=8, shards_thorough=16, trimpath=True)],
     ),
@@ -214,7 +214,7 @@ PROPS = {
              "optionally the snapshot directory is removed between two calls: the remaining calls must then behave as in a process that makes only them. "
              "test_order stage (black box): 2-3 test functions of a real test program (different test files, helpers in non-test files and another package) - the snapshots of test X when all tests run == when -run ^X$ runs alone. "
              "race stage: 2-4 goroutines x 1-5 calls through ONE shared Config under the race detector. "
-             "Round 6: in every Config the harness builds, the caller's option slice is overwritten and reused for another WithConfig call after the Config was built. Round 7: JSON documents of equal length passed as []byte from ONE buffer the test keeps (input form bytes_reused). non-trivial = MatchStandaloneJSON followed by another API on a Config without Ext, or >= 3 APIs, or a JSON option overridden in B, or the directory removed (differential); two test files (test_order); >= 2 APIs (race); distinct = distinct canonical JSON",
+             "Round 6: in every Config the harness builds, the caller's option slice is overwritten and reused for another WithConfig call after the Config was built. Round 7: JSON documents of equal length passed as []byte from ONE buffer the test keeps (input form bytes_reused). Round 8: Ext without a leading dot (`json`, `_golden`) among the option values. non-trivial = MatchStandaloneJSON followed by another API on a Config without Ext, or >= 3 APIs, or a JSON option overridden in B, or the directory removed (differential); two test files (test_order); >= 2 APIs (race); distinct = distinct canonical JSON",
         assumptions=ASSUME_WB + ["package-level Match* functions are exercised by the black-box engine only (they derive the directory from the source location)",
                                  "a race report is always a real race; absence is limited to the executed accesses"],
         stages=[
